@@ -6,6 +6,7 @@ import (
 	"bytes"
 	"context"
 	"sort"
+	"strconv"
 	"strings"
 
 	tikverr "github.com/tikv/client-go/v2/error"
@@ -233,6 +234,102 @@ func (x *ex) stepSnap(idx int, o Op) {
 		}
 		if !oracle("snapshot-object=view-at-creation-or-invalid", okO) {
 			setFail("snapshot-object=view-at-creation-or-invalid", idx, res)
+		}
+	case "sitnew", "sitnext", "sitclose":
+		// a snapshot iterator of the buffer that stays open while the transaction keeps writing into its staging
+		// levels (how a statement scans its own earlier writes): it must keep yielding the staging-blind view of its
+		// creation — ART blocks the reuse of freed nodes for that, RBT nodes never move
+		if _, isPipe := t.(*pipeTarget); isPipe {
+			return
+		}
+		switch o.Op {
+		case "sitclose":
+			if x.sit != nil {
+				x.closeSit()
+				line(idx, "sitclose", nil, "ok")
+			}
+		case "sitnew":
+			if tr.depth() == 0 {
+				return // only meaningful (and only used) while a staging level is open
+			}
+			x.closeSit()
+			lo, hi := unhx(o.Lo), unhx(o.Hi)
+			rev := o.H == 1
+			pan := protect(func() {
+				if _, hasSeq := unionstore.VerifUnionSnapshotSeq(buf); hasSeq {
+					// ART: the raw SnapshotIter does not survive tree growth (a repeated or skipped key; see docs/C07.md);
+					// the iterator that tolerates interleaved writes is GetSnapshot().BatchedSnapshotIter
+					x.sit = buf.GetSnapshot().BatchedSnapshotIter(lo, hi, rev)
+				} else if rev {
+					x.sit = buf.SnapshotIterReverse(hi, lo) // RBT: nodes never move, the raw iterator is stable
+				} else {
+					x.sit = buf.SnapshotIter(lo, hi)
+				}
+			})
+			x.sitWant, x.sitPos = nil, 0
+			for k, v := range ref.stack[0] {
+				if inBounds([]byte(k), lo, hi) {
+					x.sitWant = append(x.sitWant, KV{[]byte(k), v})
+				}
+			}
+			sort.Slice(x.sitWant, func(i, j int) bool {
+				c := bytes.Compare(x.sitWant[i].K, x.sitWant[j].K)
+				if rev {
+					return c > 0
+				}
+				return c < 0
+			})
+			dir := "fwd"
+			if rev {
+				dir = "rev"
+			}
+			res := "ok"
+			if pan != "" {
+				res = "panic"
+				x.sit = nil
+			}
+			line(idx, "sitnew", []string{hd(o.Lo), hd(o.Hi), dir}, res)
+		case "sitnext":
+			if x.sit == nil {
+				return
+			}
+			var out []KV
+			ended, invalid := false, false
+			pan := protect(func() {
+				for i := 0; i < o.ID && x.sit.Valid(); i++ {
+					out = append(out, KV{append([]byte{}, x.sit.Key()...), append([]byte{}, x.sit.Value()...)})
+					if e := x.sit.Next(); e != nil {
+						panic(e)
+					}
+				}
+				ended = !x.sit.Valid()
+				if _, hasSeq := unionstore.VerifUnionSnapshotSeq(buf); hasSeq && ended {
+					// the batched iterator refuses once SnapshotSeqNo has moved (e.g. a revert above stages[0])
+					if e := x.sit.Next(); e != nil && strings.Contains(e.Error(), "invalid iter") {
+						invalid = true
+					}
+				}
+			})
+			res := kvsString(out)
+			if invalid {
+				res += "|invalid"
+			} else if ended {
+				res += "|end"
+			}
+			if pan != "" {
+				res = "panic"
+			}
+			line(idx, "sitnext", []string{strconv.Itoa(o.ID)}, res)
+			okI := pan == "" && x.sitPos+len(out) <= len(x.sitWant) &&
+				kvsString(out) == kvsString(x.sitWant[x.sitPos:x.sitPos+len(out)]) &&
+				(invalid || ended == (x.sitPos+len(out) >= len(x.sitWant))) // a refusal is never a wrong answer
+			x.sitPos += len(out)
+			if !oracle("open-snapshot-iterator-keeps-its-view", okI) {
+				setFail("open-snapshot-iterator-keeps-its-view", idx, res+" want from "+strconv.Itoa(x.sitPos-len(out))+" of "+kvsString(x.sitWant))
+			}
+			if pan != "" || ended {
+				x.closeSit()
+			}
 		}
 	case "siter", "sriter":
 		lo, hi := unhx(o.Lo), unhx(o.Hi)
